@@ -57,9 +57,22 @@ class Gen:
                     out.append(self.use(vis))
             elif c < 0.5:
                 out.append(Block(self.stmts(depth - 1, vis, slots, allnames)))
-            elif c < 0.65:
+            elif c < 0.58:
                 t = Block(self.stmts(depth - 1, vis, slots, allnames))
                 f = Block(self.stmts(depth - 1, vis, slots, allnames)) if r.random() < 0.6 else None
+                out.append(If(B("<", V(r.choice(vis)), I(3)), t, f))
+            elif c < 0.65:
+                # unbraced branches that are declarations: the name lives in the scope of the if, not after it
+                x = self.fresh(); allnames.append(x)
+                t = Decl("int", x, B("+", V(r.choice(vis)), I(1)) if r.random() < 0.5 else None)
+                k = r.random()
+                if k < 0.4:
+                    f = None
+                elif k < 0.7:
+                    y = self.fresh(); allnames.append(y)
+                    f = Decl("int", y, V(x) if r.random() < 0.5 else None)      # the else branch sees the then branch's name
+                else:
+                    f = Block(self.stmts(depth - 1, vis + [x], slots, allnames))
                 out.append(If(B("<", V(r.choice(vis)), I(3)), t, f))
             elif c < 0.8:
                 x = self.fresh(); allnames.append(x)
@@ -155,6 +168,11 @@ def targeted():
         ("while-unbraced-decl-cond", f([While(B("<", V("x"), I(3)), Decl("int", "x"))])),
         ("own-initialiser", f([Decl("int", "x", B("+", V("x"), I(1)))])),
         ("same-scope", f([Decl("int", "x"), Decl("int", "x")])),
+        ("if-unbraced-use-after", f([If(c, Decl("int", "t", I(5))), ES(A(V("p0"), V("t")))])),
+        ("if-unbraced-siblings", f([If(c, Decl("int", "t", I(1))), If(c, Decl("int", "t", I(2)))])),
+        ("if-unbraced-else-sees-then", f([If(c, Decl("int", "t", I(1)), Decl("int", "u", V("t")))])),
+        ("while-unbraced-use-after", f([While(c, Decl("int", "t", I(5))), ES(A(V("p0"), V("t")))])),
+        ("for-unbraced-use-after", f([For(Decl("int", "i", I(0)), B("<", V("i"), I(2)), Pre("++", "i"), Decl("int", "t", I(5))), ES(A(V("p0"), V("t")))])),
         ("nested-shadow", f([Decl("int", "x"), Block([If(c, Block([Decl("int", "x")]))])])),
     ]
 
